@@ -364,3 +364,26 @@ func site(w *World, in ssa.Instruction) string { return w.InstrPos(in) }
 func fnSite(w *World, fn *ssa.Function) string {
 	return fmt.Sprintf("%s (%s)", w.Pos(fn.Pos()), w.FName(fn))
 }
+
+// uint256 / big.Int destination-receiver methods: in both libraries the receiver
+// named z is the destination of the operation. These z-methods only read.
+var pureZMethods = map[string]bool{"Clone": true, "Bytes": true, "Bytes32": true, "Bytes20": true, "Uint64": true, "Uint64WithOverflow": true,
+	"IsZero": true, "Sign": true, "Cmp": true, "CmpUint64": true, "CmpBig": true, "Eq": true, "Lt": true, "Gt": true, "Slt": true, "Sgt": true, "LtUint64": true, "GtUint64": true,
+	"String": true, "Dec": true, "Hex": true, "ToBig": true, "IsUint64": true, "BitLen": true, "ByteLen": true, "Format": true, "MarshalText": true, "MarshalJSON": true,
+	"EncodeRLP": true, "PrettyDec": true, "Float64": true, "Log10": true, "WriteToSlice": true, "WriteToArray32": true, "WriteToArray20": true, "PaddedBytes": true, "SSZBytes": true, "Value": true, "MarshalSSZ": true, "MarshalSSZTo": true}
+
+// mutatesZ: c calls a destination-receiver method of uint256.Int / big.Int that
+// writes its receiver; returns the receiver value.
+func mutatesZ(c *ssa.CallCommon) (ssa.Value, bool) {
+	f := c.StaticCallee()
+	if f == nil || f.Signature.Recv() == nil || len(c.Args) == 0 {
+		return nil, false
+	}
+	if f.Signature.Recv().Name() != "z" || pureZMethods[f.Name()] {
+		return nil, false
+	}
+	if obj := f.Object(); obj == nil || obj.Pkg() == nil || (obj.Pkg().Path() != "github.com/holiman/uint256" && obj.Pkg().Path() != "math/big") {
+		return nil, false
+	}
+	return c.Args[0], true
+}
